@@ -25,11 +25,11 @@ RULE = (
 )
 ASSUMPTIONS = [
     "mapping 'controller' is the 0-based index the library itself uses when it resolves a mapping",
-    "values are assigned through a user controller only when its mapping names an existing embedded controller with range minimum 0 (where stored and user value coincide), an enum or a boolean",
+    "values are assigned through a user controller (under its own name or, for one-word lower-case labels, under its label alias u_<label>) only on the outermost MetaModule, when its mapping names an existing embedded ranged / enum / boolean controller and no other mapping names the neighbouring controller of that module",
     "for a *loaded* MetaModule the value a user controller shows is claimed to be its stored value read under the resolved target's declared range; for constructed ones only stored values are claimed",
 ]
 REQUIRED_LABELS = {
-    "quick": ["edit_history", "depth_0", "depth_1", "depth_2", "count_0", "count_96", "count_mid", "map_enum", "map_bool", "map_negative_range", "label_set", "ctx_synth", "ctx_project", "user_value_set", "types_rederived", "label_beyond_count", "count_lowered", "user_ctl_midi_binding", "map_onto_inner_user_controller"],
+    "quick": ["edit_history", "depth_0", "depth_1", "depth_2", "count_0", "count_96", "count_mid", "map_enum", "map_bool", "map_negative_range", "label_set", "ctx_synth", "ctx_project", "user_value_set", "types_rederived", "label_beyond_count", "count_lowered", "user_ctl_midi_binding", "map_onto_inner_user_controller", "label_alias"],
     "thorough": ["edit_history", "depth_0", "depth_1", "depth_2", "depth_3", "count_0", "count_96", "count_95", "count_27", "count_mid", "map_enum", "map_bool", "map_negative_range", "map_dependent", "label_set", "ctx_synth", "ctx_project", "user_value_set", "types_rederived"],
 }
 INNER_TYPES = ["Amplifier", "Adsr", "Lfo", "Filter", "Generator", "Delay", "MultiSynth", "VorbisPlayer", "Compressor"]
